@@ -31,13 +31,20 @@ ASSUMPTIONS = ["Rust-level undefined behaviour that does not show as an out-of-w
                "extension iterator on a chain that was cut --, C01_lax_single_layer_accessors; C02_lax_accessors_total, "
                "C02_lax_exts_iter_bounded) and IpSlice::to_header's expect for strict IP slices "
                "(C02_ip_slice_to_header_expect, via the C04 lockstep lemma); the lax slicers themselves and the "
-               "struct decoders: C05/C04; TCP options iterator: C13",
+               "struct decoders: C05/C04; round 3: the packet-level accessors of a STRICT result "
+               "(Parse/PacketAccess.v: payload_ether_type / ether_payload / ip_payload / is_ip_payload_fragmented / "
+               "vlan / vlan_ids with push_unchecked; C01_strict_packet_accessors_no_oob, "
+               "C01_strict_packet_windows_inside, C02_strict_packet_accessors_total), the stored-slice -> iterator "
+               "compositions TcpSlice / TcpHeaderSlice -> TcpOptionsIterator and Icmpv6Slice -> payload_slice -> "
+               "NdpOptionsIterator (Parse/StoredIter.v on top of the C13 / C17 models; C01_stored_iter_single_layer, "
+               "C01_packet_tcp_options_iter, C01_packet_icmp6_payload_slice) and LaxPacketHeaders::from_linux_sll "
+               "never Bug (C01_lax_headers_from_linux_sll_no_oob)",
                "the accessor models are hand transliterations; their returned windows are compared with the crate on "
                "every case for the 4 strict and the 3 lax whole-packet entry points (c01acc; lax lines also compare "
-               "vlan_ids()), their VALUES (field decoding) are not compared here (field layout is the subject of "
+               "vlan_ids(); `p` lines: the VALUES and windows of the six packet-level accessors of a strict result), the VALUES of the component accessors (field decoding) are not compared here (field layout is the subject of "
                "C08); IpSlice::to_header is modelled through C04's struct-decoder model (Parse/HdrModel.v) and only "
                "exercised, not compared, by the harness; not modelled: Debug/Display formatting, checksum "
-               "calculators beyond their checked sub-slicing, Icmpv6Slice::payload_slice (NDP), accessors of the "
+               "calculators beyond their checked sub-slicing, accessors of the "
                "struct-decoder results (PacketHeaders / LaxPacketHeaders), LaxIpSlice built by the single-layer "
                "LaxIpv4Slice/LaxIpv6Slice constructors is covered by theorem only (no separate harness lines)"]
 KINDS = ("PANIC", "CRASH", "OUTSIDE", "DIFF", "HANG", "NOT-RUN")
@@ -107,15 +114,26 @@ def acc_windows_compare(ctx, cases):
         lax = ("leth", "lip", "l" + ets[(i // len(ets)) % len(ets)])
         if getattr(ctx, "tier", "quick") == "thorough":
             lax = (lax[i % 3],)        # thorough tier: 40x the cases, one rotating lax entry point per case
-        for e in ("eth", "sll", "ip", ets[i % len(ets)]) + lax:
+        # round 3: the packet-level accessors of a STRICT result (Parse/PacketAccess.v SlicedPacketPA:
+        # payload_ether_type / ether_payload / ip_payload / is_ip_payload_fragmented / vlan / vlan_ids), values
+        # and windows, model vs crate
+        pk = ("peth", "psll", "pip", "p" + ets[(i // 3) % len(ets)])
+        if getattr(ctx, "tier", "quick") == "thorough":
+            pk = (pk[i % 4],)
+        for e in ("eth", "sll", "ip", ets[i % len(ets)]) + lax + pk:
             lines.append(e + " " + c)
             idx.append(i)
     m = vlib.run_sharded([os.path.join(vlib.OCAML, "bin", "run_c01acc")], lines, "C01acc_m")
     r = vlib.run_sharded([exe], lines, "C01acc_i")
-    mism, okc, wins, lax_runs, lax_ok = [], 0, 0, 0, 0
+    mism, okc, wins, lax_runs, lax_ok, pk_runs, pk_ok, pk_vlan = [], 0, 0, 0, 0, 0, 0, 0
     for k, (a, b) in enumerate(zip(m, r)):
         lax = lines[k].startswith("l")
         lax_runs += lax
+        pkl = lines[k].startswith("p")
+        pk_runs += pkl
+        if pkl and a == b and a.startswith("ok"):
+            pk_ok += 1
+            pk_vlan += (" ids= " not in a)
         if a != b:
             mism.append((idx[k], "accessor windows differ for `%s`: model `%s` / crate `%s`" % (lines[k][:120], a[:300], b[:300])))
         elif a.startswith("ok"):
@@ -124,7 +142,9 @@ def acc_windows_compare(ctx, cases):
             lax_ok += lax
     return mism, {"accessor_window_runs": len(lines), "accessor_window_runs_accepted": okc,
                   "accessor_windows_equal": wins, "accessor_window_runs_lax": lax_runs,
-                  "accessor_window_runs_lax_accepted": lax_ok}
+                  "accessor_window_runs_lax_accepted": lax_ok,
+                  "packet_accessor_runs": pk_runs, "packet_accessor_runs_accepted": pk_ok,
+                  "packet_accessor_runs_with_vlan_ids": pk_vlan}
 
 
 def compare(ctx, cases, impl, model_lines, oracle_kinds=None):
